@@ -10,7 +10,17 @@
     levels, selection-then-scale;
 (c) differential against reference estimators evaluated by the harness (numpy.histogram2d +
     RectBivariateSpline on bin midpoints, scipy.stats.gaussian_kde, a direct product-Gaussian
-    kernel sum, Doane's rule written out) to 1e-9.
+    kernel sum, Doane's rule written out) to 1e-9;
+(d) histories on one dataset: manual / box filters, configuration keys ("remove invalid events",
+    "enable filters") changed with and without apply_filter(), features that appear after the
+    last apply_filter() (temporary feature with nan/inf, emodulus after completing the
+    configuration); every statistics request is compared with its definition on the finite
+    values of the events selected by ds.filter.all at call time (bit-exact and via the model);
+(e) request sequences on ONE dataset: every returned array (densities, contour grids, quantile
+    levels, downsampled arrays and masks) is modified in place before the identical request is
+    repeated; every answer must equal the first one and a fresh computation (new dataset, empty
+    cache).
+Dataset sizes include 1024 and 2048 events (metamorphic part, all entry points incl. tsv).
 """
 import warnings
 from fractions import Fraction
@@ -21,7 +31,10 @@ from . import common
 
 ID = "C12"
 LEAN_MODULES = ["DclabModel.Properties.C12"]
-RULE = ("seeded datasets of 1-60 events with two to three scalar features (positive, "
+RULE = ("plus two datasets of 1024 / 2048 events (metamorphic part), 30 histories of 7-14 "
+        "operations (filter / configuration / late features / statistics requests) and 12 "
+        "mutate-and-repeat request sequences of 39 requests each on one dataset; "
+        "seeded datasets of 1-64 events with two to three scalar features (positive, "
         "log-normal-like; variants: heavy ties, values <= 0, NaN/inf on included and on excluded "
         "events), filters: empty, single event, random, full; per dataset all entry points x "
         "{linear, log} x {histogram, gauss, multivariate, none}. A case is one (dataset, filter, "
@@ -126,9 +139,11 @@ def arr_close(a, b, tol):
 
 
 # ---------------------------------------------------------------------------------------
-def make_data(ctx, variant):
+def make_data(ctx, variant, n=None):
     rs = np.random.RandomState(ctx.rng.randrange(2**31))
-    n = ctx.rng.choice([5, 8, 13, 21, 21, 34, 34, 60]) if variant != "tiny" else ctx.rng.choice([1, 2, 3])
+    if n is None:
+        n = ctx.rng.choice([5, 8, 13, 16, 21, 34, 32, 60, 64]) if variant != "tiny" \
+            else ctx.rng.choice([1, 2, 3])
     d = {"area_um": np.exp(rs.normal(4.0, 0.5, n)),
          "deform": np.abs(rs.normal(0.05, 0.03, n)) + 0.002,
          "bright_avg": rs.normal(100, 15, n)}
@@ -356,14 +371,19 @@ def expect_str(s):
 
 
 # ---------------------------------------------------------------------------------------
-def one_dataset(ctx, model, idx):
+def one_dataset(ctx, model, idx, big_n=None):
+    """`big_n`: dataset of that size (1024, 2048 …), metamorphic part only"""
     common.import_dclab()
     from dclab import statistics, kde_methods, kde_contours
     from dclab.rtdc_dataset.core import RTDCBase
     rng = ctx.rng
     variant = rng.choice(["plain", "plain", "ties", "nonpos", "tiny", "incl-nan"])
-    n, data, rs = make_data(ctx, variant)
+    if big_n:
+        variant = rng.choice(["plain", "incl-nan"])
+    n, data, rs = make_data(ctx, variant, big_n)
     mkind = rng.choice(["empty", "single", "random", "random", "random", "full"])
+    if big_n:
+        mkind = "random"
     mask = make_mask(ctx, n, mkind)
     if variant == "incl-nan":
         for f in FEATS[:2]:
@@ -376,7 +396,8 @@ def one_dataset(ctx, model, idx):
     xa, ya = rng.sample(FEATS, 2)
     cfg = {"xax": xa, "yax": ya, "xscale": rng.choice(["linear", "log"]),
            "yscale": rng.choice(["linear", "log"]),
-           "kdes": rng.sample(KDES, 4) if n <= 34 else ["histogram", "none", "gauss"],
+           "kdes": rng.sample(KDES, 4) if n <= 34 else ["histogram", "none", "gauss"] if n <= 64
+           else ["histogram", "none"],
            "posx": np.array([float(np.nanmedian(data[xa])), 1.0, np.nan, float(np.nanmax(data[xa]))]),
            "posy": np.array([float(np.nanmedian(data[ya])), 2.0, 0.5, -1.0]),
            "xacc": rng.choice([None, 0, float(np.ptp(data[xa][np.isfinite(data[xa])]) / 7 or 1.0)]),
@@ -447,6 +468,8 @@ def one_dataset(ctx, model, idx):
                       {"part": "a", "entry": "scale", "case": descr})
         return
 
+    if big_n:
+        return
     # ---------------- (b) exact parts against the model ----------------------------------
     with warnings.catch_warnings():
         warnings.simplefilter("ignore")
@@ -592,10 +615,225 @@ def one_dataset(ctx, model, idx):
             ctx.stat("ref-skipped-degenerate")
 
 
+# ---------------------------------------------------------------------------------------
+# part (d): histories on one dataset — the filter, the configuration and the set of available
+# features change between requests; the oracle is the documented semantics: a statistic is
+# computed from the finite values of the events selected by `ds.filter.all` at call time
+# (all events when filters are disabled)
+_tmp_registered = False
+
+
+def history(ctx, model, idx):
+    global _tmp_registered
+    dclab = common.import_dclab()
+    from dclab import statistics
+    if not _tmp_registered:
+        try:
+            dclab.register_temporary_feature("c12_tmp")
+        except Exception:
+            pass
+        _tmp_registered = True
+    rng = ctx.rng
+    n, data, rs = make_data(ctx, rng.choice(["plain", "ties"]), rng.choice([8, 13, 21, 34]))
+    data["deform"] = np.clip(data["deform"], 0.003, 0.19)
+    if rng.random() < 0.5:
+        data["bright_avg"] = poison(rs, data["bright_avg"], rs.random_sample(n) < 0.3, "naninf")
+    ds = dataset(data, make_mask(ctx, n, "random"))
+    ops = []
+    feats = list(FEATS)
+    steps = ["stat"] + [rng.choice(["manual", "box", "tmp", "cfg-invalid", "cfg-enable", "emod",
+                                    "stat", "stat"]) for _ in range(rng.randint(5, 12))] + ["stat"]
+    for step in steps:
+        apply = rng.random() < 0.5
+        try:
+            with warnings.catch_warnings():
+                warnings.simplefilter("ignore")
+                if step == "manual":
+                    ds.filter.manual[:] = make_mask(ctx, n, rng.choice(["random", "random", "full",
+                                                                        "single"]))
+                    apply = True
+                elif step == "box":
+                    lo, hi = sorted(rs.uniform(0.0, 0.12, 2))
+                    ds.config["filtering"]["deform min"] = float(lo)
+                    ds.config["filtering"]["deform max"] = float(hi)
+                elif step == "tmp":
+                    vals = rs.normal(5, 2, n)
+                    vals[rs.random_sample(n) < 0.35] = rs.choice([np.nan, np.inf, -np.inf])
+                    dclab.set_temporary_feature(ds, "c12_tmp", vals)
+                    if "c12_tmp" not in feats:
+                        feats.append("c12_tmp")
+                elif step == "cfg-invalid":
+                    ds.config["filtering"]["remove invalid events"] = bool(rng.random() < 0.7)
+                elif step == "cfg-enable":
+                    ds.config["filtering"]["enable filters"] = bool(rng.random() < 0.6)
+                elif step == "emod":
+                    ds.config["setup"]["channel width"] = 20.0
+                    ds.config["setup"]["flow rate"] = 0.04
+                    ds.config["imaging"]["pixel size"] = 0.34
+                    ds.config["calculation"]["emodulus lut"] = "LE-2D-FEM-19"
+                    ds.config["calculation"]["emodulus medium"] = "CellCarrier"
+                    ds.config["calculation"]["emodulus temperature"] = 23.0
+                    ds.config["calculation"]["emodulus viscosity model"] = "buyukurganci-2022"
+                    if "emodulus" in ds and "emodulus" not in feats:
+                        feats.append("emodulus")
+                if step != "stat" and apply:
+                    ds.apply_filter()
+        except Exception as e:  # noqa
+            ops.append(f"{step}:raised-{common.err_class(e)}")
+            ctx.stat("hist:op-raised")
+            continue
+        ops.append(step + ("+apply" if apply and step != "stat" else ""))
+        if step != "stat":
+            continue
+        # ---- request + oracle --------------------------------------------------------
+        with warnings.catch_warnings():
+            warnings.simplefilter("ignore")
+            enable = bool(ds.config["filtering"]["enable filters"])
+            fall = np.array(ds.filter.all, dtype=bool, copy=True)
+            for f in feats:
+                if f not in ds:
+                    continue
+                col = np.asarray(ds[f], dtype=float)
+                x = col[fall] if enable else col
+                fin = x[np.isfinite(x)]
+                want = [("Mean", np.average), ("Median", np.median), ("SD", np.std),
+                        ("Mode", statistics.mode)]
+                got = call(lambda: statistics.get_statistics(ds, methods=[m for m, _ in want],
+                                                             features=[f]))
+                ctx.case(("hist", idx, tuple(ops), f), nontrivial=len(ops) > 2)
+                ctx.stat("hist:request")
+                if f in ("c12_tmp", "emodulus"):
+                    ctx.stat("hist:late-feature-request")
+                if is_exc(got):
+                    ctx.violation("spec", f"get_statistics raised in a history ({ops})",
+                                  {"part": "d", "ops": ops, "feature": f})
+                    return
+                for (mname, fn), val in zip(want, got[1]):
+                    exp = call(lambda: fn(fin)) if fin.size else np.nan
+                    if is_exc(exp):
+                        exp = np.nan
+                    if canon(float(val)) != canon(float(exp)):
+                        ctx.violation(
+                            "spec", f"{mname} of '{f}' after the history {ops} is {val!r}; the finite "
+                            f"values of the events selected by ds.filter.all give {exp!r} "
+                            f"(enable filters={enable}, remove invalid events="
+                            f"{ds.config['filtering']['remove invalid events']})",
+                            {"part": "d", "ops": ops, "feature": f, "method": mname,
+                             "values": [rat(v) for v in col], "filter_all": bits(fall)})
+                        return
+                sc = float(np.max(np.abs(fin))) if fin.size else 1.0
+                model.ask(f"stat mean {int(enable)} {bits(fall)} " + " ".join(rat(v) for v in col),
+                          expect_num(got[1][0], 1e-12, sc), ("Mean in history", f, ops))
+            ev = call(lambda: statistics.get_statistics(ds, methods=["Events", "%-gated"]))
+            if not is_exc(ev):
+                model.ask(f"events {bits(fall)}", expect_str(str(int(ev[1][0]))), ("Events", ops))
+
+
+# ---------------------------------------------------------------------------------------
+# part (e): request sequences on ONE dataset; every returned array is modified in place before
+# the identical request is repeated; every answer must equal the first one and a fresh
+# computation on a new dataset with an empty cache
+def deep_copy(r):
+    if isinstance(r, tuple):
+        return tuple(deep_copy(x) for x in r)
+    if isinstance(r, np.ndarray):
+        return np.array(r, copy=True)
+    return r
+
+
+def scribble(r, rs):
+    """modify the arrays of a result in place (read-only arrays are left alone)"""
+    if isinstance(r, tuple):
+        for x in r:
+            scribble(x, rs)
+    elif isinstance(r, np.ndarray) and r.size:
+        try:
+            if r.dtype == bool:
+                r[...] = ~r
+            else:
+                r[...] = r * 3 + 7
+        except ValueError:
+            pass
+
+
+def mutation_sequence(ctx, idx):
+    common.import_dclab()
+    from dclab import cached, kde_contours
+    rng = ctx.rng
+    n, data, rs = make_data(ctx, "plain", rng.choice([13, 34, 60]))
+    mask = make_mask(ctx, n, rng.choice(["random", "full"]))
+    if mask.sum() < 8:
+        mask[:] = True
+    xa, ya = rng.sample(FEATS, 2)
+    xs, ys = rng.choice(["linear", "log"]), rng.choice(["linear", "log"])
+    pos = (np.array([float(np.median(data[xa])), float(np.max(data[xa]))] + list(data[xa][:3])),
+           np.array([float(np.median(data[ya])), float(np.min(data[ya]))] + list(data[ya][:3])))
+    k = max(2, int(mask.sum()) // 2)
+
+    def requests(ds):
+        req = {}
+        for kt in KDES:
+            req[f"scatter:{kt}"] = lambda kt=kt: ds.get_kde_scatter(
+                xax=xa, yax=ya, kde_type=kt, xscale=xs, yscale=ys)
+            req[f"scatter-pos:{kt}"] = lambda kt=kt: ds.get_kde_scatter(
+                xax=xa, yax=ya, kde_type=kt, xscale=xs, yscale=ys,
+                positions=(np.array(pos[0], copy=True), np.array(pos[1], copy=True)))
+            req[f"contour:{kt}"] = lambda kt=kt: ds.get_kde_contour(
+                xax=xa, yax=ya, kde_type=kt, xscale=xs, yscale=ys)
+
+        def quant():
+            xm, ym, dens = ds.get_kde_contour(xax=xa, yax=ya, kde_type="histogram")
+            return kde_contours.get_quantile_levels(
+                density=dens, x=xm, y=ym, xp=ds[xa][ds.filter.all], yp=ds[ya][ds.filter.all],
+                q=np.array([0.25, 0.5, 0.9]))
+        req["quantile"] = quant
+        req["down"] = lambda: ds.get_downsampled_scatter(xax=xa, yax=ya, downsample=k,
+                                                         xscale=xs, yscale=ys)
+        req["down-mask"] = lambda: ds.get_downsampled_scatter(xax=xa, yax=ya, downsample=k,
+                                                              xscale=xs, yscale=ys, ret_mask=True)
+        req["down-all"] = lambda: ds.get_downsampled_scatter(xax=xa, yax=ya, downsample=0)
+        return req
+
+    ds = dataset(data, mask)
+    req = requests(ds)
+    names = list(req)
+    order = names + names + [rng.choice(names) for _ in range(len(names))]
+    rng.shuffle(order)
+    first = {}
+    hist = []
+    for name in order:
+        r = call(req[name])
+        hist.append(name)
+        ctx.case(("mut", idx, tuple(hist[-6:])), nontrivial=name in first)
+        ctx.stat("mut:request")
+        c = canon(r)
+        if name not in first:
+            first[name] = c
+        elif c != first[name]:
+            ctx.violation(
+                "spec", f"{name} ({xa}/{ya}, {xs}/{ys}) returns different values when the identical "
+                f"request is repeated after the previously returned arrays were modified in place "
+                f"(request #{len(hist)} on one dataset)",
+                {"part": "e", "entry": name, "history": hist, "n": n, "mask": bits(mask)})
+            return
+        if not is_exc(r):
+            scribble(r, rs)
+    # the data of the dataset itself must be untouched and a fresh computation must agree
+    cached.Cache.clear_cache()
+    fresh = requests(dataset(data, mask))
+    for name in names:
+        c = canon(call(fresh[name]))
+        if c != first[name]:
+            ctx.violation("spec", f"{name}: a fresh computation (new dataset, empty cache) differs "
+                                  f"from the answers of the long-lived dataset",
+                          {"part": "e", "entry": name, "history": hist, "n": n, "mask": bits(mask)})
+            return
+
+
 def run(ctx):
     common.import_dclab()
     model = Model()
-    for idx in range(ctx.n(110, 1200)):
+    for idx in range(ctx.n(90, 1000)):
         before = len(ctx.violations)
         try:
             one_dataset(ctx, model, idx)
@@ -603,6 +841,15 @@ def run(ctx):
             raise
         if len(ctx.violations) > before and len(ctx.violations) >= 3:
             break
+    for big in (1024, 2048):
+        if len(ctx.violations) < 3:
+            one_dataset(ctx, model, 10**6 + big, big_n=big)
+    for idx in range(ctx.n(30, 400)):
+        if len(ctx.violations) < 4:
+            history(ctx, model, idx)
+    for idx in range(ctx.n(12, 150)):
+        if len(ctx.violations) < 5:
+            mutation_sequence(ctx, idx)
     if not ctx.lean_ok or not model.lines:
         return
     out = ctx.lean("C12", model.lines)
